@@ -48,8 +48,16 @@ fn copy_node<T: Clone>(n: &Option<Box<TreapNode<T>>>) -> Option<Box<TreapNode<T>
     n.as_ref().map(|b| Box::new(TreapNode { item: b.item.clone(), priority: b.priority, left: copy_node(&b.left), right: copy_node(&b.right) }))
 }
 
-fn copy_treap<T: Clone>(t: &Treap<T>) -> Treap<T> {
-    Treap { root: copy_node(&t.root) }
+/// A treap with the given root, without naming any other field the struct may have (only the public `root`
+/// field is relied upon, so the engine keeps compiling if the crate adds private fields).
+fn treap_of<T: TreapItem>(root: Option<Box<TreapNode<T>>>) -> Treap<T> {
+    let mut t = Treap::new();
+    t.root = root;
+    t
+}
+
+fn copy_treap<T: Clone + TreapItem>(t: &Treap<T>) -> Treap<T> {
+    treap_of(copy_node(&t.root))
 }
 
 /// `val >= 4` encodes "value val % 4, carrying a pending modification" (4..8: add 1, 8..12: the
@@ -68,7 +76,7 @@ fn make_item<I>(id: I, val: u8) -> It<I> {
 
 fn single(id: u8, val: u8, prio: u32) -> Treap<It> {
     // struct literal: no priority is drawn from the crate's generator
-    Treap { root: Some(Box::new(Node { item: make_item(id, val), priority: prio, left: None, right: None })) }
+    treap_of(Some(Box::new(Node { item: make_item(id, val), priority: prio, left: None, right: None })))
 }
 
 fn for_each_node<T>(n: &Option<Box<TreapNode<T>>>, f: &mut dyn FnMut(&TreapNode<T>)) {
@@ -347,7 +355,7 @@ impl Sys {
                 err = Some(format!("node id {} caches size {} (left subtree: {}) but its subtree has {} nodes (left subtree: {})", n.item.id, n.item.size, n.item.lsize, cnt, count(&n.left)));
                 return;
             }
-            let mut st = Treap { root: sub };
+            let mut st = treap_of(sub);
             let seq: Vec<u8> = st.collect().iter().map(|x| x.val).collect();
             if seq != n.item.agg {
                 err = Some(format!("node id {} keeps aggregate {:?} but its subtree holds {:?}", n.item.id, n.item.agg, seq));
@@ -921,7 +929,7 @@ impl DropSys {
             DAct::Start => return Err("constructor inside a history".into()),
             DAct::New(pc) => {
                 DROPS.with(|d| d.borrow_mut().as_mut().unwrap().counts.push(0));
-                s.slots.push(Treap { root: Some(Box::new(TreapNode { item: Dr::new(fresh), priority: pc as u32, left: None, right: None })) });
+                s.slots.push(treap_of(Some(Box::new(TreapNode { item: Dr::new(fresh), priority: pc as u32, left: None, right: None }))));
                 s.models.push(vec![fresh]);
                 out = 0;
             }
@@ -1484,7 +1492,7 @@ fn build_shape(shape: Shape, n: usize, tags: Tags, id0: u32) -> Built {
     }
     let mut c = Ctx { tags, height: shape.height(n), id0, model: vec![], deepest_tag: None };
     let root = rec(&mut c, shape, 0, n, 0, IDT);
-    Built { tree: Treap { root }, model: c.model, height: c.height, deepest_tag: c.deepest_tag }
+    Built { tree: treap_of(root), model: c.model, height: c.height, deepest_tag: c.deepest_tag }
 }
 
 /// priority = f(depth) for every node
@@ -1635,7 +1643,7 @@ impl ShapeCase {
             Some(Box::new(TreapNode { item, priority: prio(depth as u32), left: rec(ls, lo, r, depth + 1, prio), right: rec(rs, r + 1, hi, depth + 1, prio) }))
         }
         let deepest = self.shape.height(self.n).saturating_sub(1) as u32;
-        Treap { root: rec(self.shape, 0, self.n, 0, &|d| self.prio.of(d, deepest)) }
+        treap_of(rec(self.shape, 0, self.n, 0, &|d| self.prio.of(d, deepest)))
     }
 
     /// Drop accounting on a literal tree: after every step every element still in a treap or in the
